@@ -794,6 +794,10 @@ func ruleC08c(c *Ctx) []*report.Result {
 					_ = x
 				case *ssa.DebugRef:
 				case ssa.CallInstruction:
+					// measuring it is not converting it
+					if bi, isB := x.Common().Value.(*ssa.Builtin); isB && bi.Name() == "len" {
+						continue
+					}
 					// handed on to a helper of the package (followed above)
 					if g := x.Common().StaticCallee(); g == nil || !seenFn[g] {
 						okDelim = false
